@@ -183,6 +183,20 @@ pub fn op_flat(args: &[Sexp]) -> String {
     if unsupported { "unsupported".into() } else { format!("ok ({})", rows.join(" ")) }
 }
 
+/// every instance of an imported library refers to one of the library's OWN cells (the same shared object, not an
+/// equal-looking copy): editing a cell through `Library::cells` must be seen by its instances
+fn instances_point_into_library(lib: &raw::Library) -> bool {
+    for c in lib.cells.iter() {
+        let c = c.read().unwrap();
+        if let Some(ly) = &c.layout {
+            for i in &ly.insts {
+                if !lib.cells.iter().any(|k| *k == i.cell) { return false; }
+            }
+        }
+    }
+    true
+}
+
 // ------------------------------------------------------------------ oracles
 type P2 = (i64, i64);
 /// canonical polygon form of a shape region: rect -> its 4 corners; rotated to start at the smallest vertex, orientation kept
@@ -295,6 +309,7 @@ pub fn oracle_c07(line: &str) -> String {
             }
         }
         let back = match std::panic::catch_unwind(std::panic::AssertUnwindSafe(|| raw::Library::from_gds(&g, Some(lib.layers.clone())))) { Err(_) => return "fail import of exported library panicked".into(), Ok(Err(_)) => return "fail import of exported library failed".into(), Ok(Ok(b)) => b };
+        if !instances_point_into_library(&back) { break_cycles(&back); return "fail an instance of the re-imported library refers to a cell that is not in the library (a detached copy)".into(); }
         let (a, b) = (norm_raw(&lib), norm_raw(&back));
         break_cycles(&back);
         if a == b { "pass".into() } else {
@@ -454,6 +469,7 @@ pub fn oracle_c06(line: &str) -> String {
         Err(_) => "pass".into(), // "either reports an error or …"
         Ok(lib) => {
             let out = (|| -> String {
+                if !instances_point_into_library(&lib) { return "fail an instance of the imported library refers to a cell that is not in the library (a detached copy)".into(); }
                 if let Some(m) = malformed {
                     if ["dangling", "cyclic", "zero rows/cols", "empty xy", "unsupported mag"].contains(&m.as_str()) { return format!("fail malformed hierarchy ({}) imported without error", m); }
                     return "na".into(); // unsupported orientation etc.: outside the property's quantifier
@@ -617,6 +633,20 @@ pub fn gen_gds_lib(rng: &mut Rng, malform: u64, big: bool) -> GdsLibrary {
             let layer = [1i16, 5, 66][rng.below(3) as usize];
             let dt = rng.below(3) as i16;
             let mut label_at: Option<(i32, i32)> = None;
+            if rng.chance(1, 8) {
+                // two overlapping shapes on one layer and two DIFFERENT labels: the first lies in the first shape only,
+                // the second in the overlap — it meets an already-named shape and a nameless one (either element order)
+                let (a, b) = (rng.range(6, 12) as i32, rng.range(3, 5) as i32);
+                let r1 = vec![(ox, oy), (ox + a, oy), (ox + a, oy + a), (ox, oy + a), (ox, oy)];
+                let r2 = vec![(ox + b, oy + b), (ox + a + b, oy + b), (ox + a + b, oy + a + b), (ox + b, oy + a + b), (ox + b, oy + b)];
+                let mk = |pts: &Vec<(i32, i32)>| GdsElement::GdsBoundary(GdsBoundary { layer, datatype: dt, xy: pts.iter().map(|p| GdsPoint::new(p.0, p.1)).collect(), ..Default::default() });
+                if rng.coin() { s.elems.push(mk(&r1)); s.elems.push(mk(&r2)); } else { s.elems.push(mk(&r2)); s.elems.push(mk(&r1)); }
+                let txt = |st: &str, x: i32, y: i32| GdsElement::GdsTextElem(GdsTextElem { string: st.to_string(), layer, texttype: 0, xy: GdsPoint::new(x, y), ..Default::default() });
+                s.elems.push(txt("first", ox + 1, oy + 1));
+                s.elems.push(txt("second", ox + b + 1, oy + b + 1));
+                if rng.coin() { s.elems.push(txt("third", ox + a + b - 1, oy + a + b - 1)); }
+                continue;
+            }
             match rng.below(6) {
                 0 | 1 => { // rectangle, clockwise or counter-clockwise, any start
                     let (x0, y0, x1, y1) = (ox, oy, ox + rng.range(2, 15) as i32, oy + rng.range(2, 15) as i32);
